@@ -10,6 +10,7 @@ HERE = os.path.dirname(os.path.dirname(os.path.abspath(__file__)))
 # of their own, C14 explores refused calls natively, C15 pairs objects over one caller container itself.
 DERIVED = {"C01", "C02", "C03", "C04", "C05", "C06", "C07", "C09", "C10", "C11", "C12", "C16", "C17", "C18", "C19"}
 FAULTY = DERIVED - {"C12"}
+PAIRED = DERIVED - {"C18"}  # every step of a C18 system already runs up to 120 twins side by side
 DERIVED_TEXT = {
     True: " In addition every system of this check is explored (a) as two instances living in one process — same and "
     "neighbouring configurations, events tagged by instance, schedules alternating / free interleaving / second object constructed "
@@ -233,8 +234,11 @@ def main():
         pid = p["id"]
         if pid in CHECKS and os.path.exists(os.path.join(HERE, "checks", pid.lower() + ".py")):
             tech, text, note = CHECKS[pid]
-            if pid in DERIVED:
+            if pid in PAIRED:
                 text += DERIVED_TEXT[pid in FAULTY]
+            elif pid in FAULTY:
+                text += (" In addition every system of this check is explored with at most k malformed calls (k = 1 quick, 2 thorough) "
+                         "anywhere in a history, which must be refused, must not move the counters and must leave every later verdict unchanged.")
             checks.append(
                 {
                     "property_id": pid,
